@@ -22,6 +22,9 @@ TEXTS = [
     "{:p:}/{A}",
     "{:p:}{:q:}",
     "{D}",
+    "{K-1}/{A}",
+    "{K 2}",
+    "{L.-1}",
 ]
 
 
